@@ -77,8 +77,13 @@ fn build(
 				}
 			};
 			let mut es: Vec<(String, Call)> = Vec::new();
+			let skip_style = matches!(as_, RecAs::Struct | RecAs::StructVariant) && rng.chance(1, 2);
 			for &k in &order {
 				if omit[k] {
+					// what #[serde(skip_serializing_if = ..)] does: the field's turn comes, and it is skipped
+					if skip_style {
+						es.push((fields[k].0.clone(), Call::SkipField));
+					}
 					continue;
 				}
 				es.push((
@@ -294,8 +299,10 @@ pub fn run_case(ctx: &mut Ctx, case_seed: u64) {
 		let kind = rng.below(3);
 		let label;
 		match kind {
-			0 if !entries.is_empty() => {
-				let src = rng.below(entries.len());
+			0 if entries.iter().any(|e| e.1 != Call::SkipField) => {
+				// (a repeated skip_field announces nothing twice: only fields with a value count as duplicates)
+				let with_value: Vec<usize> = (0..entries.len()).filter(|&i| entries[i].1 != Call::SkipField).collect();
+				let src = *rng.pick(&with_value);
 				let dup = entries[src].clone();
 				let at = rng.below(entries.len() + 1);
 				entries.insert(at, dup);
